@@ -39,10 +39,16 @@ r $fromInc;
 INC = "fromInc 7;\nzz 'from include';\n"
 
 
+ODD_NAMES = ["~case", "~", "my dict", "$HOME", "${USER}.dict", "%TEMP%", "é.dict", "a.b.c", "*.dict", "src.dict.bak"]
+ODD_LOGS = ["~run.log", "$HOME.log", "my log.txt"]
+
+
 def build(td: Path):
     (td / "sub").mkdir(parents=True)
     (td / "src.dict").write_text(SRC)
     (td / "sub" / "inc").write_text(INC)
+    for nm in ODD_NAMES:                      # the same source under names a shell or path library might want to expand
+        (td / nm).write_text(SRC)
     (td / "src2.json").write_text('{"load case": {"wind speed": {"v": 12.5}, "x": 1}, "plain": {"y": 2}, "n": {"m": {"z": 3}}}')
 
 
@@ -67,7 +73,7 @@ def argv_of(o: dict) -> list[str]:
     if o["verb"]:
         a.append(o["verb"])
     if o["log"]:
-        a += ["--log", "run.log"]
+        a += ["--log", o.get("logname", "run.log")]
     return a
 
 
@@ -157,7 +163,7 @@ def process(ctx: Ctx, cases: list[dict]) -> None:
                     code, err = run_cli_inprocess(t1, argv)
                 acode = run_api(t2, api_kwargs(ctx, o), o.get("src", "src.dict"))
                 s1, s2 = snapshot(t1), snapshot(t2)
-                s1.pop("run.log", None)
+                s1.pop(o.get("logname", "run.log"), None)
                 if "Traceback" in err and not (isinstance(acode, str) and acode.startswith("raises:")):
                     ctx.violation("the command line printed a traceback", {"argv": argv}, err[-500:], "no traceback")
                 if isinstance(code, str) != isinstance(acode, str) and not c.get("subprocess"):
@@ -236,6 +242,14 @@ def run(ctx: Ctx) -> None:
     for sc in ("load case", "['load case']", "['load case', 'wind speed']", "[ n , m ]", "[n,m]", "plain", '["load case"]'):
         cases.append({"kind": "run", "subprocess": False, "o": {"src": "src2.json", "I": False, "Iflag": "-I", "order": False, "C": False, "Cflag": "-C", "mode": None,
                                                                "output": rng.choice([None, "json"]), "oflag": "-o", "scope": sc, "verb": None, "log": False}})
+    for nm in ODD_NAMES:
+        for _ in range(2):
+            o = dict(rng.choice(opts)); o["src"] = nm
+            if o["scope"] is not None and rng.random() < 0.5:
+                o["scope"] = None
+            if o["log"]:
+                o["logname"] = rng.choice(ODD_LOGS)
+            cases.append({"kind": "run", "o": o, "subprocess": nm in ("~case", "$HOME")})
     for argv, sub in ((["nope.dict"], True), (["nope.dict", "-o", "json"], False), (["src.dict", "--mode", "x"], True), (["src.dict", "-o", "yaml"], False),
                       (["src.dict", "--log-level", "LOUD"], False), ([], False), (["src.dict", "--unknown"], False)):
         cases.append({"kind": "bad", "argv": argv, "subprocess": sub})
